@@ -3,9 +3,9 @@ import itertools
 
 from props.graph import FAULT_KINDS, GraphProp
 
-KINDS = ["SimFault", "RuntimeError", "MemoryError", "KeyboardInterrupt", "SimBaseFault", "KeyError", "StopIteration"]
+KINDS = ["SimFault", "RuntimeError", "MemoryError", "KeyboardInterrupt", "SimBaseFault", "KeyError", "StopIteration", "ExoticRuntimeError"]
 MORE_KINDS = ["ValueError", "SystemExit", "IndexError", "AttributeError", "TypeError", "ZeroDivisionError", "AssertionError", "OSError",
-              "LookupError", "NotImplementedError", "RecursionError", "GeneratorExit"]
+              "LookupError", "NotImplementedError", "RecursionError", "GeneratorExit", "ExoticError"]
 
 
 class Prop(GraphProp):
@@ -18,7 +18,7 @@ class Prop(GraphProp):
              "thorough": {"runs": 400000, "budget_s": 900, "chunk": 16}}
     rule = ("(a) exhaustive part: for a fixed family of small worlds x schedules, every callback invocation (Hamiltonian "
             "term, Sylvester solver, multiplication) of every operation x {SimFault(Exception), RuntimeError, MemoryError, "
-            "KeyboardInterrupt, SimBaseFault(BaseException), KeyError, StopIteration} is injected as a single fault, the schedule continues and finally every element is "
+            "KeyboardInterrupt, SimBaseFault(BaseException), KeyError, StopIteration, ExoticRuntimeError (a RuntimeError subclass with a three-argument constructor)} is injected as a single fault, the schedule continues and finally every element is "
             "re-requested; (b) seeded part: random worlds and schedules with 1-4 faults, transient or sticky (the same site "
             "fails again on retry), placed only where the clean run of the same schedule shows a callback invocation, incl. "
             "faults during block_diagonalize(...) itself, in a second computation sharing the input, in chained "
@@ -35,7 +35,7 @@ class Prop(GraphProp):
                    "asynchronous interrupts between arbitrary bytecodes are outside the stated property",
                    "oracle: a fresh undisturbed computation of the same world in the same process"]
     fixed_description = ("single-fault enumeration: every callback invocation index of every operation of the fixed "
-                         "(world, schedule) family x 7 exception kinds; thorough tier additionally all pairs of faults in "
+                         "(world, schedule) family x 8 exception kinds; thorough tier additionally all pairs of faults in "
                          "different operations for four of the worlds")
 
     profile = {"p_illposed": 0.0, "max_ops": 30}
